@@ -133,3 +133,13 @@ use constriction::stream::model::DefaultLeakyQuantizer as _Q;
 fn quantile<M: DecoderModel<24>>(_m: M) {}
 #[allow(dead_code)]
 fn dec<D: Decode<24>>(_d: D) {}
+
+#[test]
+fn f16_leaky_quantizer_truncates_support_size() {
+    use constriction::stream::model::SmallLeakyQuantizer;
+    // 65637 symbols cannot all get a nonzero probability with 12 bits of precision, yet construction succeeds
+    let q = SmallLeakyQuantizer::<f64, i32>::new(0..=65636);
+    let m = q.quantize(probability::distribution::Gaussian::new(100.0, 10.0));
+    let total: u64 = m.symbol_table().take(300).map(|(_, _, p)| p.get() as u64).sum();
+    assert!(total > 4096, "F16: first 300 probabilities already exceed 2^12: {}", total);
+}
